@@ -228,6 +228,7 @@ func runC03(r *ev.Run) {
 			}
 		}
 		nOps := 10 + rng.IntN(60)
+		lastText := map[uint32]string{}
 		for op := 0; op < nOps; op++ {
 			c := rng.IntN(10)
 			switch {
@@ -238,10 +239,16 @@ func runC03(r *ev.Run) {
 					rep("bm25.add-error", err.Error())
 				}
 				m.add(id, text)
+				lastText[id] = text
 				r.Count("ops:add", 1)
 			case c < 6:
 				live := m.liveIDs()
 				id, text := live[rng.IntN(len(live))], tg.doc()
+				if rng.IntN(4) == 0 {
+					text = lastText[id] // replaced by the very same text
+					r.Count("ops:replace-with-unchanged-text", 1)
+				}
+				lastText[id] = text
 				hist = append(hist, textOp{"replace", id, text})
 				if err := idx.Add(id, text); err != nil {
 					rep("bm25.add-error", err.Error())
@@ -259,6 +266,22 @@ func runC03(r *ev.Run) {
 				m.remove(id)
 				removes++
 				r.Count("ops:remove", 1)
+				if rng.IntN(3) == 0 {
+					// update = remove + add of the same id while its tombstone is still pending, with new or the same text
+					text := tg.doc()
+					if rng.IntN(2) == 0 {
+						text = lastText[id]
+						r.Count("ops:re-add-with-unchanged-text", 1)
+					}
+					probe()
+					hist = append(hist, textOp{"re-add", id, text})
+					if err := idx.Add(id, text); err != nil {
+						rep("bm25.add-error", "re-add of a removed id: "+err.Error())
+					}
+					m.add(id, text)
+					lastText[id] = text
+					r.Count("ops:re-add-removed-id", 1)
+				}
 			case c < 9:
 				hist = append(hist, textOp{"flush", 0, ""})
 				if err := idx.Flush(); err != nil {
